@@ -92,6 +92,11 @@ def gen_case(rnd, tier: str, i: Any) -> Dict[str, Any]:
                 zero_tie = True
         if rnd.random() < 0.3:
             gen_sim.add_device_spans(rnd, tr)        # GPU-side annotations / profiler ranges on the kernels' streams
+        if n_ranks > 1 and r > 0 and rnd.random() < 0.12:
+            # a rank without any device activity (CPU-only worker, or the device records were not collected): it has no stream, hence
+            # no rows - and the other ranks of the request are reported as usual
+            ev = tr["traceEvents"]
+            tr["traceEvents"] = ev[:1] + [e for e in ev[1:] if not (e.get("ph") == "X" and e.get("cat") in ("kernel", "gpu_memcpy", "gpu_memset", "cuda_sync", "gpu_user_annotation", "cuda_profiler_range"))]
         files[f"rank{r}.json"] = tr
     if n_ranks > 1 and rnd.random() < 0.3:
         # every later rank repeats rank 0's vocabulary in another order of first appearance
@@ -140,6 +145,12 @@ def run_case(case: Dict[str, Any], ctx: Any) -> core.CaseResult:
 def _one_request(case, cfg, ta, ld, models, ranks_ok, res) -> bool:  # noqa: ANN001
     n = max(1, int(cfg["rank_sel"] * len(ranks_ok) + 0.999))
     ranks = ranks_ok[:n] if cfg["rank_sel"] < 0.7 else [ranks_ok[int(cfg["rank_sel"] * 1000) % len(ranks_ok)]]
+    idle_ranks = [r for r in sorted(models) if r not in ranks_ok]
+    asked = list(ranks)
+    if idle_ranks and cfg["stream_sel"] >= 0.6:
+        # ranks without any kernel are named in the request as well (all ranks of the job): no rows for them
+        asked = sorted(ranks + idle_ranks)
+        res.counters["requests_naming_a_rank_without_kernels"] += 1
     # threshold from the actual gaps of the first selected rank
     gaps = []
     for s, ks in _streams(ld.kept[ranks[0]]).items():
@@ -159,12 +170,14 @@ def _one_request(case, cfg, ta, ld, models, ranks_ok, res) -> bool:  # noqa: ANN
         streams = ([999] if int(cfg["stream_sel"] * 1000) % 3 == 0 else []) + all_streams
         if any(s not in _streams(ld.kept[r]) for r in ranks for s in streams):
             res.counters["requests_naming_a_stream_some_rank_lacks"] += 1
-    ok, out = drv.guard(res, "get_idle_time_breakdown", ta.get_idle_time_breakdown, ranks=ranks, streams=streams, visualize=False,
+    ok, out = drv.guard(res, "get_idle_time_breakdown", ta.get_idle_time_breakdown, ranks=asked, streams=streams, visualize=False,
                         consecutive_kernel_delay=thr, **({"show_idle_interval_stats": True} if cfg.get("stats") else {}))
     if not ok:
         res.violations[-1].witness.update(ranks=ranks, streams=streams, thr=thr)
         return False
     df = out[0]
+    if str(df["idle_time"].dtype) == "object" or str(df["idle_time_ratio"].dtype) == "object":
+        res.bad("numeric-columns", f"idle_time / idle_time_ratio columns are of dtype {df['idle_time'].dtype} / {df['idle_time_ratio'].dtype} (ranks asked {asked})")
     stats = out[1] if cfg.get("stats") else None
     if cfg.get("stats") and stats is None:
         res.bad("interval-stats", "show_idle_interval_stats=True returned no statistics frame")
